@@ -32,13 +32,22 @@ func main() {
 			usage()
 		}
 		switch os.Args[2] {
+		case "C04":
+			checkC04(tier)
 		case "C05":
 			checkC05(tier)
 		case "C16":
 			checkC16(tier)
+		case "C18":
+			checkC18(tier)
 		default:
 			usage()
 		}
+	case "replay":
+		if len(os.Args) < 3 {
+			usage()
+		}
+		replay(os.Args[2])
 	case "gen-test":
 		genTest()
 	default:
@@ -135,4 +144,59 @@ func genTest() {
 			}
 		}
 	}
+}
+
+// replay re-runs a replay file in fresh processes. Exit 1 (and a VIOLATION line) if the recorded violation
+// reproduces, 0 if the property holds on the scenario now.
+func replay(path string) {
+	sc, err := loadScenario(path)
+	if err != nil {
+		harnessFail("replay: %v", err)
+	}
+	var judge Judge
+	want := []string{"fc"}
+	switch sc.Property {
+	case "C04":
+		judge = judgeC04
+		want = []string{"fc", "bsm"}
+	case "C05":
+		judge = judgeC05
+	case "C16":
+		judge = judgeC16
+	case "C18":
+		judge = judgeC18
+		want = []string{"bsm"}
+	default:
+		harnessFail("replay: no judge for property %q in this binary", sc.Property)
+	}
+	c := newCtx(sc.Property, "replay", want...)
+	pkgAllFoi = mustRead(filepath.Join(c.B.Repo, "pkg", "pkg_all.foi"))
+	if sc.Property == "C04" {
+		self := corpusSelfBuild(c.B.Repo)
+		id := self.scenario("C04", c.Seed, -1)
+		r := c.sim(c.B.FcVerif, id)
+		if r.Exit == 0 {
+			c04Gen1Raw = r.Written()
+		}
+	}
+	if sc.Property == "C18" {
+		readme := mustRead(filepath.Join(c.B.Repo, "samples", "README.md"))
+		if i := strings.Index(string(readme), "###"); i > 0 {
+			c18Header = readme[:i]
+		}
+	}
+	v := judge(c, sc)
+	c.Close()
+	if v == nil {
+		fmt.Printf("NOT REPRODUCED: the property holds on this scenario (property=%s)\n", sc.Property)
+		os.Exit(0)
+	}
+	fmt.Printf("violation class=%s signature=%s\n%s\n", v.Class, v.Signature, v.Detail)
+	if sc.Expect != nil && sc.Expect.Signature != v.Signature {
+		fmt.Printf("note: recorded signature was %s\n", sc.Expect.Signature)
+	} else {
+		fmt.Println("REPRODUCED")
+	}
+	fmt.Printf("VIOLATION property=%s replay=%s\n", sc.Property, path)
+	os.Exit(1)
 }
